@@ -232,6 +232,7 @@ SEEDS = [
     ("[{v: 2}, {v: 5}, {v: 5}]", "[max(v)]"), ("{a: {v: 1}, b: {v: 1}, c: {v: 2}}", "[unique(v)]"),
     ("[1, 2, 2, 3]", "[distinct()]"), ("{a: {b: {c: 1}}}", "a.b.c[parent(2)]"),
     ("{a: &A 1, b: *A, c: [*A, 1]}", "**.c[&A][parent()]"),
+    ("{'&x': 1, y: &x 2}", "**"), ("{a: {'&x': 1}, y: &x 2}", "/a/*"),
     ("{r: [{n: 1}, {n: 2}, {n: 3}]}", "/r[0:3]/n"), ("{r: [{n: 1}, {n: 2}, {n: 3}]}", "/r[0:3]/n[parent()]"), ("[{c: &A1 10, b: 1}]", "/[0][&A1][parent(2)]"),
     ("{a: {x: {v: 1}}}", "**[v=1][parent()]"),
     ('{"/x": 1, n: {"/y": 2}}', "**"), ('{"/x": 1}', "*"), ('{"/": {a: 1}}', "/\\//a"),
